@@ -35,6 +35,28 @@ CHECKS = {
              "Premises of the ring theorem: names and indices of the map distinct, parameterised reactants do not reuse a state name.",
         technique="Coq proof (ring + scatter-kernel slot lemma + sparse table proofs) + extracted-model differential tie",
         ref="6 C02"),
+    "C03": dict(
+        text="Coq: for every field, the Doolittle defining equations imply L*U = A entry-wise "
+             "(C03_defining_equations_give_LU_eq_A); the four algorithms (symbolic fill-in + numeric phase, separate and "
+             "in-place) are modelled at the level of logical elements with the loops and IsZero tests as coded. Tie: the "
+             "library's own templates instantiated over the prime field Z_p (exact) vs the extracted model over Z_p: "
+             "patterns and every L/U value per block, all patterns n<=3 (quick) / n<=4 (thorough) x 4 algorithms + random "
+             "n<=8, CSR/CSC x standard/vector L<=4, partial groups, garbage prior L/U. Oracle on the implementation: "
+             "L unit lower, U upper, L*U == A over Z_p, independence from prior L/U contents.",
+        note="PARTIAL proof: that each algorithm's numeric phase satisfies the defining equations is not yet a theorem "
+             "(validated by the exact Z_p tie and oracle). Trusted: Coq kernel, extraction, harness, Zp class.",
+        technique="Coq proof (field identity) + exact-field differential tie of the real templates (partial)",
+        ref="6 C03"),
+    "C04": dict(
+        text="Coq: for every field, size, triangular patterns and L, U with non-zero diagonal and L*U = A, the modelled "
+             "forward/backward substitution of LinearSolver and LinearSolverInPlace returns x with A x = b "
+             "(C04_solve_gives_Ax_eq_b, C04_solve_in_place_gives_Ax_eq_b; induction over rows). Tie: real "
+             "LinearSolver/LinearSolverInPlace templates over Z_p vs extracted model, x per block, same case space as C03 "
+             "with random right-hand sides, row-major and grouped dense vectors, padding rows holding garbage. Oracle: "
+             "A*x == b over Z_p on the implementation.",
+        note="Premise L*U = A comes from C03 (partial there). Trusted: Coq kernel, extraction, harness, Zp class.",
+        technique="Coq proof (induction over substitution rows, any field) + exact-field differential tie",
+        ref="6 C04"),
     "C19": dict(
         text="Coq theorems: every logical element of a dense matrix has its own in-range slot in every layout "
              "(injectivity + range for row-major and grouped, any L>0, any shape); the Axpy/ForEach loops visit exactly the "
